@@ -19,6 +19,7 @@
 From Coq Require Import List ZArith Bool Arith Lia.
 From JugV Require Import Model.LockPrims Proofs.LockFacts.
 From JugV Require Gen.LockConsts Gen.KeepaliveParams.
+From JugV Require Model.Keepalive Proofs.KeepaliveFacts.
 Import ListNotations.
 
 (* ------------------------------------------------------------------------------------------
@@ -160,6 +161,51 @@ Theorem C04_linearizable_at_one_primitive : forall (P : params) (b : backend) (h
   (forall n, sh (cfg_after P b hists s) n = repr P b (spec_final all_free (trace_of P b hists s) n)).
 Proof. exact run_linearizable. Qed.
 Print Assumptions C04_linearizable_at_one_primitive.
+
+(* ------------------------------------------------------------------------------------------
+   T3 on the keep-alive backend, with the holder's helper process as a concurrent actor.
+   The programs above run with the helper stopped (a refresh of a held lock writes the mtime it
+   already has on the frozen clock).  While a helper runs, the one operation it can interfere with
+   is the holder's fail(), whose primitives are  stop_monitor() ; os.utime(lock, failed stamp)
+   (Model/Keepalive.v: events EFailStop, EFailMark; EWake = one loop body of the helper, which
+   refreshes the mtime every p_rounds-th time).  For ALL events between the two primitives and ALL
+   events afterwards, from any state with a live holder: the helper never refreshes after the first
+   primitive, and once fail() returned True (OMarked true) the lock keeps the failed stamp until it
+   is removed: is_locked() / is_failed() answer True and get() is refused at every
+   t >= failed stamp + expiry. *)
+Theorem C04_keepalive_failed_is_sticky_against_the_helper :
+  forall (p : Keepalive.params) (w : Keepalive.world) (t1 : Z)
+         (mid : list (Z * Keepalive.event)) (t2 : Z) (post : list (Z * Keepalive.event)),
+    Keepalive.w_alive w = true ->
+    let w1 := Keepalive.exec p w ((t1, Keepalive.EFailStop) :: mid) in
+    let w2 := fst (Keepalive.step p w1 (t2, Keepalive.EFailMark)) in
+    (forall t, ~ In (Keepalive.ORefresh t)
+                    (Keepalive.outs p (fst (Keepalive.step p w (t1, Keepalive.EFailStop)))
+                                    (mid ++ (t2, Keepalive.EFailMark) :: post))) /\
+    (snd (Keepalive.step p w1 (t2, Keepalive.EFailMark)) = [Keepalive.OMarked t2 true] ->
+     forall post1 post2, post = post1 ++ post2 ->
+       Forall (fun te => KeepaliveFacts.keeps_lock (snd te)) post1 ->
+       Keepalive.w_lock (Keepalive.exec p w2 post1) = Some (Keepalive.p_failed_ts p) /\
+       forall t, (Keepalive.p_failed_ts p + Keepalive.p_expiry p <= t)%Z ->
+         snd (Keepalive.step p (Keepalive.exec p w2 post1) (t, Keepalive.EQuery)) =
+           [Keepalive.OLocked t true; Keepalive.OFailed t true] /\
+         snd (Keepalive.step p (Keepalive.exec p w2 post1) (t, Keepalive.EGet)) = [Keepalive.OGet t false]).
+Proof. exact KeepaliveFacts.fail_in_order_sticky. Qed.
+Print Assumptions C04_keepalive_failed_is_sticky_against_the_helper.
+
+(* the opposite order (stamp first, helper stopped afterwards) does not have the property: with the
+   constants of the source, the helper's 60th wake-up between the two primitives overwrites the
+   stamp; fail() returned True and is_failed() answers False *)
+Example C04_keepalive_mark_before_stop_refuted_failed_not_sticky :
+  let t0 := 1000000%Z in
+  let evs := Keepalive.expand t0
+               [Keepalive.CWakes 59 5; Keepalive.CEv (t0 + 300) Keepalive.EFailMark; Keepalive.CWakes 1 5;
+                Keepalive.CEv (t0 + 300) Keepalive.EFailStop; Keepalive.CEv (t0 + 301) Keepalive.EQuery] in
+  Keepalive.valid KeepaliveParams.ka_params 0 (Keepalive.init KeepaliveParams.ka_params t0 0) evs = true /\
+  Keepalive.outs KeepaliveParams.ka_params (Keepalive.init KeepaliveParams.ka_params t0 0) evs =
+    [Keepalive.OMarked (t0 + 300) true; Keepalive.ORefresh (t0 + 300); Keepalive.OExit (t0 + 300) Keepalive.CKilled;
+     Keepalive.OLocked (t0 + 301) true; Keepalive.OFailed (t0 + 301) false].
+Proof. vm_compute. split; reflexivity. Qed.
 
 (* ------------------------------------------------------------------------------------------
    Non-vacuity: three clients, two names, the constants of the source at time 1000000; clients 0 and
